@@ -70,6 +70,10 @@ def s15_azimuth(ctx):
         # azimuth 180 - 3e-14, which rounds to 180.0 (equal to the exact value up to rounding)
         if not (0 <= got <= 180):
             res.disagreements.append(Disagreement("S15-azimuth", case, spec, got, True, "azimuth outside [0,180]"))
+        elif ddx == 0 and (abs(got) > TOL or abs(rev) > TOL):
+            # an exactly north-south chord (either digitising direction) has azimuth exactly 0, never 180: [0,180) is half open
+            res.disagreements.append(Disagreement("S15-azimuth", case, 0.0, {"line": got, "reversed": rev}, True,
+                                                  "exactly north-south chord: azimuth must be 0 for both digitising directions ([0,180) is half open)"))
         elif circ_dist(got, spec) > TOL:
             res.disagreements.append(Disagreement("S15-azimuth", case, spec, got, True, "azimuth differs from (90 - atan2) mod 180"))
         elif circ_dist(got, rev) > TOL:
